@@ -7,6 +7,7 @@ Exit status = what `python -m ddsmt` would return.
 
 Environment:
   VERIF_SLOW_CONSUMER=<ms>   sleep in the main loop's write (perturbs completion orders)
+  VERIF_SLOW_ADOPT=<ms>      sleep between receiving a success and setting the abort flag (hierarchical)
   VERIF_WORKER_DELAY=<ms>    random delay (0..ms, derived from pid/time) before each check in a worker
 """
 import hashlib
@@ -85,6 +86,7 @@ def dup_ids(exprs):
 _rnd = random.Random(os.getpid() ^ time.time_ns())
 WD = int(os.environ.get('VERIF_WORKER_DELAY', '0'))
 SC = int(os.environ.get('VERIF_SLOW_CONSUMER', '0'))
+SA = int(os.environ.get('VERIF_SLOW_ADOPT', '0'))
 
 # ---- writes to the output file
 _orig_write = nodeio.write_smtlib_to_file
@@ -198,6 +200,9 @@ _orig_stats_add = sh.MutatorStats.add
 
 def stats_add(self, success, task, original):
     log('consume', success=success, nodeid=task.nodeid, name=task.name, cand=dig(task.exprs) if success else None)
+    if SA and success:
+        # the main loop is slow between receiving a success and setting the abort flag
+        time.sleep(SA / 1000.0)
     return _orig_stats_add(self, success, task, original)
 
 
